@@ -76,6 +76,14 @@ func genRefCase(t *rapid.T) RefCase {
 	nf := rapid.IntRange(1, refFrames).Draw(t, "nframes")
 	withQueries := rapid.IntRange(0, 2).Draw(t, "queries") == 0
 	values := []string{"0", "0", "1", "1000", "1000000000000000000"}
+	// with precompile queries in the program, plain sends (2300 gas stipend) go to accounts without code only: whether a
+	// precompile call fits into the stipend depends on gas rules the reference EVM does not have
+	targets := func(self int) []string {
+		if withQueries {
+			return []string{refSigner.Hex.Hex(), refThird.Hex.Hex(), refFresh1.Hex(), refFresh2.Hex()}
+		}
+		return refTargets(self)
+	}
 	for i := 0; i < nf; i++ {
 		f := evmasm.Frame{}
 		nops := rapid.IntRange(1, 5).Draw(t, "nops")
@@ -100,7 +108,7 @@ func genRefCase(t *rapid.T) RefCase {
 				}
 				f.Ops = append(f.Ops, op)
 			case "send":
-				op := evmasm.Op{Kind: "send", Target: rapid.SampledFrom(refTargets(i)).Draw(t, "sendto"), Value: rapid.SampledFrom(values).Draw(t, "sendv"),
+				op := evmasm.Op{Kind: "send", Target: rapid.SampledFrom(targets(i)).Draw(t, "sendto"), Value: rapid.SampledFrom(values).Draw(t, "sendv"),
 					NoRecord: rapid.IntRange(0, 2).Draw(t, "norec") == 0, ValueAll: rapid.IntRange(0, 4).Draw(t, "all") == 0}
 				f.Ops = append(f.Ops, op)
 			case "sstore":
@@ -135,7 +143,7 @@ func genRefCase(t *rapid.T) RefCase {
 		case 2:
 			f.Ops = append(f.Ops, evmasm.Op{Kind: "invalid"})
 		case 3:
-			f.Ops = append(f.Ops, evmasm.Op{Kind: "selfdestruct", Target: rapid.SampledFrom(refTargets(i)).Draw(t, "heir")})
+			f.Ops = append(f.Ops, evmasm.Op{Kind: "selfdestruct", Target: rapid.SampledFrom(targets(i)).Draw(t, "heir")})
 		}
 		c.Prog.Frames = append(c.Prog.Frames, f)
 		c.Fund = append(c.Fund, rapid.SampledFrom([]string{"0", "0", "1", "100", "3000000000000000000"}).Draw(t, "fund"))
@@ -151,11 +159,11 @@ func genRefCase(t *rapid.T) RefCase {
 			case "sstore":
 				c.Prog.Frames[i].Alt = append(c.Prog.Frames[i].Alt, evmasm.Op{Kind: "sstore", Key: uint64(rapid.IntRange(0, 3).Draw(t, "akey")), Val: uint64(rapid.IntRange(0, 2).Draw(t, "aval"))})
 			case "send":
-				c.Prog.Frames[i].Alt = append(c.Prog.Frames[i].Alt, evmasm.Op{Kind: "send", Target: rapid.SampledFrom(refTargets(i)).Draw(t, "asendto"), Value: rapid.SampledFrom(values).Draw(t, "asendv"), NoRecord: rapid.Bool().Draw(t, "anorec")})
+				c.Prog.Frames[i].Alt = append(c.Prog.Frames[i].Alt, evmasm.Op{Kind: "send", Target: rapid.SampledFrom(targets(i)).Draw(t, "asendto"), Value: rapid.SampledFrom(values).Draw(t, "asendv"), NoRecord: rapid.Bool().Draw(t, "anorec")})
 			case "log":
 				c.Prog.Frames[i].Alt = append(c.Prog.Frames[i].Alt, evmasm.Op{Kind: "log", Key: uint64(100 + 10*i + j)})
 			case "selfdestruct":
-				c.Prog.Frames[i].Alt = append(c.Prog.Frames[i].Alt, evmasm.Op{Kind: "selfdestruct", Target: rapid.SampledFrom(refTargets(i)).Draw(t, "aheir")})
+				c.Prog.Frames[i].Alt = append(c.Prog.Frames[i].Alt, evmasm.Op{Kind: "selfdestruct", Target: rapid.SampledFrom(targets(i)).Draw(t, "aheir")})
 				j = na
 			case "revert":
 				c.Prog.Frames[i].Alt = append(c.Prog.Frames[i].Alt, evmasm.Op{Kind: "revert"})
@@ -194,9 +202,9 @@ func genRefCase(t *rapid.T) RefCase {
 		}
 		switch rapid.IntRange(0, 3).Draw(t, "re-alt-end") {
 		case 0, 1:
-			alt = append(alt, evmasm.Op{Kind: "selfdestruct", Target: rapid.SampledFrom(refTargets(pI)).Draw(t, "re-heir")})
+			alt = append(alt, evmasm.Op{Kind: "selfdestruct", Target: rapid.SampledFrom(targets(pI)).Draw(t, "re-heir")})
 		case 2:
-			alt = append(alt, evmasm.Op{Kind: "send", Target: rapid.SampledFrom(refTargets(pI)).Draw(t, "re-to"), Value: "1", NoRecord: true})
+			alt = append(alt, evmasm.Op{Kind: "send", Target: rapid.SampledFrom(targets(pI)).Draw(t, "re-to"), Value: "1", NoRecord: true})
 		}
 		if len(alt) == 0 {
 			alt = []evmasm.Op{{Kind: "log", Key: 7}}
@@ -233,7 +241,7 @@ func genRefCase(t *rapid.T) RefCase {
 			body = append(body, evmasm.Op{Kind: "sstore", Key: uint64(rapid.IntRange(0, 3).Draw(t, "fs-k2")), Val: uint64(rapid.IntRange(0, 2).Draw(t, "fs-v2"))})
 		}
 		if rapid.Bool().Draw(t, "fs-send") {
-			body = append(body, evmasm.Op{Kind: "send", Target: rapid.SampledFrom(refTargets(child)).Draw(t, "fs-to"), Value: "1", NoRecord: true})
+			body = append(body, evmasm.Op{Kind: "send", Target: rapid.SampledFrom(targets(child)).Draw(t, "fs-to"), Value: "1", NoRecord: true})
 		}
 		body = append(body, evmasm.Op{Kind: rapid.SampledFrom([]string{"revert", "invalid"}).Draw(t, "fs-end")})
 		c.Prog.Frames[child].Ops = body
@@ -284,6 +292,27 @@ func runRef(c RefCase, class func(string)) (discs []refDisc, nontrivial bool) {
 		}
 		for _, op := range append(append([]evmasm.Op{}, c.Prog.Frames[i].Ops...), c.Prog.Frames[i].Alt...) {
 			hasPre = hasPre || op.Kind == "pre"
+		}
+	}
+	stipendBoundPre := false
+	{
+		preFrames := map[common.Address]bool{}
+		for i, f := range c.Prog.Frames {
+			for _, op := range f.Ops {
+				if op.Kind == "pre" {
+					preFrames[evmasm.FrameAddr(i)] = true
+				}
+			}
+		}
+		for _, f := range c.Prog.Frames {
+			for _, op := range append(append([]evmasm.Op{}, f.Ops...), f.Alt...) {
+				if (op.Kind == "send" || op.Kind == "selfdestruct") && preFrames[common.HexToAddress(op.Target)] {
+					stipendBoundPre = true
+				}
+				if op.Kind == "call" && op.GasCap > 0 {
+					stipendBoundPre = stipendBoundPre || hasPre
+				}
+			}
 		}
 	}
 	// every slot a program can write, in every storage context
@@ -360,6 +389,12 @@ func runRef(c RefCase, class func(string)) (discs []refDisc, nontrivial bool) {
 		}
 		refLogs := rr.State.Logs()
 		rr.State.Finalise(true)
+		if hasPre && stipendBoundPre {
+			// a frame that calls a precompile is reached through a plain value send (2300 gas stipend): whether that call
+			// fits depends on the precompile's own gas schedule, which the reference EVM does not have
+			class("skipped:precompile-call-under-gas-stipend")
+			return
+		}
 		if hasPre && (uint64(res.GasUsed) > tx.Gas/2 || tx.Gas < 3000000) {
 			// gas differs by construction when a precompile is called; only compare runs that are nowhere near the limit
 			class("skipped:query-precompile-near-gas-limit")
@@ -381,6 +416,11 @@ func runRef(c RefCase, class func(string)) (discs []refDisc, nontrivial bool) {
 		// surviving entries, is visited and restored: a disagreement there is not that finding.
 		untouchedInRef := func(a common.Address) bool {
 			p := pre[a]
+			if a == refSigner.Hex {
+				// the signer pays the fee outside the EVM and its nonce is bumped by the ante handler: inside the EVM it
+				// is untouched iff nothing but the fee left or reached it
+				return new(big.Int).Add(rr.State.GetBalance(a), new(big.Int).Mul(new(big.Int).SetUint64(rr.UsedGas), price)).Cmp(p.Balance) == 0
+			}
 			if p.Balance.Cmp(rr.State.GetBalance(a)) != 0 || (len(p.Code) > 0) != (len(rr.State.GetCode(a)) > 0) {
 				return false
 			}
@@ -392,7 +432,7 @@ func runRef(c RefCase, class func(string)) (discs []refDisc, nontrivial bool) {
 			return true
 		}
 		flushKey := func(a common.Address, base, what string) string {
-			if hasPre && a != refSigner.Hex && untouchedInRef(a) {
+			if hasPre && untouchedInRef(a) {
 				return "flush-then-revert:" + what + "-of-undirtied-account"
 			}
 			return base
